@@ -57,6 +57,7 @@ def gen_prims(ctx):
 NAMES = [b"a", b"b.txt", b"c..d", b"e f", b"g\xc3\xa9", b"sub", b"deep", b"x.y.z", b"..hidden", b"end.."]
 HOSTILE_REL = [b"../esc", b"../../escaped_dir", b"a/../../esc", b"/abs/esc", b"..", b"sub/../../../esc", b"..\\esc", b"a/..", b""]
 HOSTILE_ID = [b"../../../escaped_id", b"../x", b"a/b", b"..", b".", b"a\\b", b"/abs"]
+ESCAPING_ID = [b"../../../escaped_id", b"../../victim", b"../../../../deep/er"]   # leave the out dir from <out>/.thruflux_resumedata/
 HOSTILE_ROOT = [b"../esc", b"../../victim", b"a/../../b", b".."]
 
 
@@ -111,11 +112,48 @@ def gen_hostile(ctx):
             kind = "begin-wrong-size"
             i = rng.below(len(begins))
             begins[i] = [begins[i][0], begins[i][1] + 1, begins[i][2]]
+        elif r in (6, 7) and files:
+            # the same rel path listed twice with different contents: whatever the validator and the consumer each pick, nothing may escape
+            f0 = files[rng.below(len(files))]
+            variant = rng.below(4)
+            dup = [f0[0], f0[1], f0[2], False]
+            if variant == 0:
+                kind = "dup-path-hostile-id"
+                dup[2] = rng.choice(ESCAPING_ID)
+            elif variant == 1:
+                kind = "dup-path-as-dir"
+                dup[3] = True
+                dup[2] = b""
+            elif variant == 2:
+                kind = "dup-path-other-size"
+                dup[1] = f0[1] + 7
+            else:
+                kind = "dup-path-hostile-id-first"
+                for it in items:
+                    if it[0] == f0[0]:
+                        it[2] = rng.choice(ESCAPING_ID)
+                dup[2] = f0[2]
+            rng.shuffle(items)
+            items.append(dup)
+            cases.append({"mode": "hostile", "name": f"h{k}-{kind}", "root": root.hex(),
+                          "items": [{"p": it[0].hex(), "n": it[1], "dir": it[3], "id": it[2].hex()} for it in items],
+                          "begins": [{"p": b[0].hex(), "n": b[1], "chunk": b[2]} for b in begins],
+                          "noroot": noroot, "resume": True, "_kind": kind})
+            continue
         rng.shuffle(items)
         cases.append({"mode": "hostile", "name": f"h{k}-{kind}", "root": root.hex(),
                       "items": [{"p": it[0].hex(), "n": it[1], "dir": it[3], "id": it[2].hex()} for it in items],
                       "begins": [{"p": b[0].hex(), "n": b[1], "chunk": b[2]} for b in begins],
                       "noroot": noroot, "resume": resume, "_kind": kind})
+    # aimed: one file listed twice, the hostile id in the later / the earlier entry, both root modes
+    for noroot in (True, False):
+        for later in (True, False):
+            for hid in ESCAPING_ID:
+                good = {"p": b"dup.bin".hex(), "n": 70, "dir": False, "id": b"00112233aabbccdd".hex()}
+                bad = dict(good, id=hid.hex())
+                items = [{"p": b"other".hex(), "n": 3, "dir": False, "id": b"1122".hex()}] + ([good, bad] if later else [bad, good])
+                cases.append({"mode": "hostile", "name": f"aimed-dup-id-{'later' if later else 'earlier'}-{'noroot' if noroot else 'root'}", "root": b"tree".hex(), "items": items,
+                              "begins": [{"p": b"dup.bin".hex(), "n": 70, "chunk": 64}], "noroot": noroot, "resume": True, "_kind": "dup-path-hostile-id"})
     return cases
 
 
@@ -177,6 +215,10 @@ def run(ctx):
         created = sorted(r.get("created") or [])
         if created:
             n_created += 1
+        if c["_kind"] == "dup-path-as-dir":
+            # one path listed as a directory and as a file: what gets created depends on the OS refusing the second use; only the
+            # confinement oracle above applies, the effect model has no such conflicts
+            continue
         if mline == "reject":
             if created or r.get("recv_ok"):
                 diffs.append((c["name"], f"model rejects the manifest; impl created {created[:4]} ok={r.get('recv_ok')}", ""))
@@ -191,7 +233,7 @@ def run(ctx):
         "evaluations": len(prims) + len(cases), "distinct_nontrivial": len(prims) + n_created,
         "rule": "path primitives: Clean/Join/IsAbs/Dir + validateRelPath/validateFilename on byte strings built from a segment alphabet "
                 "(., .., ..., a..b, empty, backslash forms, non-UTF-8, long) incl. 1024/1025 and 255-257 byte boundaries vs path/filepath and the real validators; "
-                "hostile receives: consistent random trees (both root modes, resume on/off) with one hostile mutation in ~60% (dir/file/id/root escape, FileBegin not in manifest, wrong size) "
+                "hostile receives: consistent random trees (both root modes, resume on/off) with one hostile mutation in ~80% (dir/file/id/root escape, FileBegin not in manifest, wrong size, the same rel path listed twice with a hostile id / as a directory / with another size in the earlier or the later entry) "
                 "driven by a scripted sender into the REAL RecvManifestMultiStream; full sandbox snapshot before/after. non-trivial = primitives + receives that created something",
         "samples": [prims[10], prims[-1], model_line(cases[0])[:300]],
         "hostile_kinds": kinds, "disagreements_model_vs_impl": len(d1) + len(diffs),
